@@ -182,16 +182,18 @@ def r5(ctx, prog):
             bc_d = dd["d"]
     ctx.check(R, ok, f.where(), "block count = size / MI_ARENA_BLOCK_SIZE (rounded down, never _mi_divide_up)", key="C15.R5:bcount")
     # start re-assigned only from an align-up of itself; size only reduced by (aligned_start - start)
+    import re as _re
+    up = r"(?:mi_align_up_ptr|_mi_align_up)\(\$0,\d+\)"
     for a, rhs, op in f.var_defs(p_start):
-        vals = rl.values_of(f, rhs) if rhs is not None else []
-        ok = any(rl.is_call(f, v, ("mi_align_up_ptr", "_mi_align_up")) and f.mentions_decl(v, p_start) for v in vals)
-        ctx.check(R, ok, f.where(a), "start is only moved up by alignment: %s" % f.text(rhs), key="C15.R5:start")
-    diffs = [dd["d"] for _, dd in rl.local_decl(f, lambda dd: "init" in dd and f.nodes[f.strip(dd["init"])]["k"] == "BinaryOperator" and
-                                                f.nodes[f.strip(dd["init"])]["op"] == "-" and f.mentions_decl(dd["init"], p_start))]
+        if op == "addr":
+            continue     # `&start` handed to a private helper: the helper's stores are seen here after inlining
+        t = rl.canon(f, rhs).replace(" ", "") if rhs is not None else "?"      # temporaries (also a helper's copies of start/size) expanded
+        ctx.check(R, bool(_re.fullmatch(up, t)), f.where(a), "start is only moved up by alignment: %s" % t, key="C15.R5:start")
     for a, rhs, op in f.var_defs(p_size):
-        ok = rhs is not None and op == "=" and f.nodes[f.strip(rhs)]["k"] == "BinaryOperator" and f.nodes[f.strip(rhs)]["op"] == "-" and \
-             f.is_ref(f.nodes[f.strip(rhs)]["c"][0], p_size) and rl.var_of(f, f.nodes[f.strip(rhs)]["c"][1]) in diffs
-        ctx.check(R, ok, f.where(a), "size is only reduced by the alignment difference: %s" % f.text(rhs), key="C15.R5:size")
+        if op == "addr":
+            continue
+        t = rl.canon(f, rhs).replace(" ", "") if rhs is not None else "?"
+        ctx.check(R, op == "=" and bool(_re.fullmatch(r"\(\$1-\(%s-\$0\)\)" % up, t)), f.where(a), "size is only reduced by the alignment difference: %s" % t, key="C15.R5:size")
     # left-over bits
     claims = [c for c in f.calls("_mi_bitmap_claim") if f.mentions_field(rl.arg(f, c, 0), "blocks_inuse")]
     ctx.check(R, len(claims) >= 1, f.where(), "left-over bits of the last bitmap field are claimed in blocks_inuse", key="C15.R5:leftover")
@@ -199,8 +201,10 @@ def r5(ctx, prog):
         cnt = rl.var_of(f, rl.arg(f, c, 2))
         defs = [rhs for a, rhs, op in f.var_defs(cnt) if rhs is not None] if cnt is not None else []
         bits = prog.const("MI_BITMAP_FIELD_BITS")
-        ok = len(defs) == 1 and f.nodes[f.strip(defs[0])]["k"] == "BinaryOperator" and f.nodes[f.strip(defs[0])]["op"] == "-" and \
-             rl.var_of(f, f.nodes[f.strip(defs[0])]["c"][1]) == bc_d and any(f.cv(x) == bits for x in f.walk(defs[0]))
+        # the subtrahend is the block count: the local itself, or arena->block_count which was stored from it
+        stored = any(rl.var_of(f, rhs_) == bc_d for a_, l_, rhs_, op_ in f.field_stores("block_count") if rhs_ is not None)
+        sub = f.nodes[f.strip(defs[0])]["c"][1] if len(defs) == 1 and f.nodes[f.strip(defs[0])]["k"] == "BinaryOperator" and f.nodes[f.strip(defs[0])]["op"] == "-" else None
+        ok = sub is not None and (rl.var_of(f, sub) == bc_d or (stored and rl.canon(f, sub).endswith("->block_count"))) and any(f.cv(x) == bits for x in f.walk(defs[0]))
         ctx.check(R, ok, f.where(c), "count = fields*MI_BITMAP_FIELD_BITS - bcount", key="C15.R5:post")
         idx = rl.values_of(f, rl.arg(f, c, 3))
         ok = any(rl.is_call(f, v, "mi_bitmap_index_create") and rl.canon(f, f.nodes[v]["args"][1]).replace(" ", "") in ("(%d-post)" % bits,) for v in idx)
